@@ -62,10 +62,10 @@ func c03Nats(xs []int) string {
 
 func c03StrLit(e ast.Expr) (string, error) {
 	bl, ok := e.(*ast.BasicLit)
-	if ok && bl.Kind == token.INT { // a byte given as a number (`0: []byte("&#0;")`)
-		v, err := strconv.ParseUint(bl.Value, 0, 8)
-		if err != nil {
-			return "", err
+	if ok && bl.Kind == token.INT { // byte key written as a number, e.g. `0: []byte("&#0;")`
+		v, err := strconv.ParseInt(bl.Value, 0, 16)
+		if err != nil || v < 0 || v > 255 {
+			return "", fmt.Errorf("integer literal %s is not a byte at %v", bl.Value, e.Pos())
 		}
 		return string([]byte{byte(v)}), nil
 	}
